@@ -1,6 +1,7 @@
 """C05 — CLEAR tracking scores follow their definitions for every history.
 
-Under contract: CLEAR._is_id_switched / _is_same_match (truth tables), _calculate_tp_fp (per frame: every considered result is
+Under contract: CLEAR.__init__ (every total is the sum, over consecutive frame pairs, of the per-frame value of that pair — frame t against
+frame t-1 and nothing else — then MOTA / MOTP from the totals), CLEAR._is_id_switched / _is_same_match (truth tables), _calculate_tp_fp (per frame: every considered result is
 exactly one of TP / FP; an ID switch is counted once per TP whose pairing differs from the first previous TP that shares its
 estimated track or its ground-truth track; accumulators equal ghost prefix counts), _calculate_score (MOTA / MOTP formulas with
 their sentinels).  Track ids are strings compared only with ==, so every contract is invariant under consistent renaming.
@@ -134,6 +135,48 @@ def build(P):
                               idx.lookup(f"{OR}:DynamicObjectWithPerceptionResult.get_matching").fq: named_matching,
                               idx.lookup(f"{CL}:CLEAR._is_same_match").fq: cut_same, idx.lookup(f"{CL}:CLEAR._is_id_switched").fq: cut_sw})
 
+    # ---------------------------------------------------------------- CLEAR.__init__: totals over consecutive frame pairs, then the scores
+    from pyvc.lemmas import running_total
+    OBJ = "object_results"
+    CFG = "target_labels, matching_mode, matching_threshold_list"
+    SELF_CFG = "self._target_labels, self._matching_mode, self._matching_threshold_list"
+    frame_fn = lambda what, cur_, prev_, cfg: f"uf_{'int' if what == 'switch' else 'real'}('frame_{what}', {cur_}, {prev_}, {cfg})"
+    named_frame = Contract(f"{CL}:CLEAR._calculate_tp_fp", params={}, returns=TTuple(TReal(), TReal(), TInt(), TReal()),
+                           ensures=E("named", " and ".join(f"result[{i}] == {frame_fn(w, 'cur_object_results', 'prev_object_results', SELF_CFG)}"
+                                                           for i, w in enumerate(("tp", "fp", "switch", "score")))))
+    totals, tdefs = {}, []
+    nP = f"max(len({OBJ}) - 1, 0)"          # number of consecutive frame pairs
+    for w in ("tp", "fp", "switch", "score"):
+        g, d = running_total(f"total_{w}", real=(w != "switch"))
+        totals[f"total_{w}"] = g
+        tdefs += d(lambda gg, w=w: frame_fn(w, f"{OBJ}[{gg} + 1]", f"{OBJ}[{gg}]", CFG), nP)
+    g, d = running_total("total_results")
+    totals["total_results"] = g
+    tdefs += d(lambda gg: f"len({OBJ}[{gg} + 1])", nP)
+    ATTR = {"tp": "tp", "fp": "fp", "switch": "id_switch", "score": "tp_matching_score"}
+    inv_init = E(*[x for w, a in ATTR.items() for x in (f"{a}_is_the_total_over_the_frame_pairs_so_far", f"self.{a} == total_{w}(t)")],
+                 "number_of_results_so_far", "self.objects_results_num == total_results(t)",
+                 "configuration_kept", "self._target_labels is target_labels and self._matching_mode is matching_mode and "
+                                       "self._matching_threshold_list is matching_threshold_list and self._num_ground_truth == num_ground_truth",
+                 "input_untouched", f"len({OBJ}) == old(len({OBJ})) and forall(k, 0, len({OBJ}), {OBJ}[k] is old({OBJ}[k]))")
+    T_ = lambda w: f"total_{w}({nP})"
+    P.verify(f"{CL}:CLEAR.__init__", name="CLEAR.__init__",
+             contract=Contract(
+                 f"{CL}:CLEAR.__init__", cut=False,
+                 params={"self": lambda it: it.ctx.new_cell("obj", {}, CLR), OBJ: TSList(RT), "num_ground_truth": TInt(), "target_labels": Opt(TSList(AL)),
+                         "matching_mode": TEnum(MM), "matching_threshold_list": Opt(TSList(TReal())),
+                         "tp_metrics": lambda it: it.ctx.new_cell("obj", {}, TPA), "metrics_field": NONE},
+                 ghosts=totals, defs=tdefs,
+                 requires=E("ground_truth_count_not_negative", "num_ground_truth >= 0"),
+                 loops={1: LoopSpec(index="t", invariants=inv_init)},
+                 modifies=[("attrs", "self")],
+                 ensures=E("each_total_sums_every_frame_against_its_predecessor",
+                           " and ".join(f"self.{a} == {T_(w)}" for w, a in ATTR.items()) + f" and self.objects_results_num == total_results({nP})",
+                           "mota_is_the_clamped_ratio_of_the_totals",
+                           f"implies(num_ground_truth > 0, self.mota == max(0, ({T_('tp')} - {T_('fp')} - {T_('switch')}) / num_ground_truth))",
+                           "motp_is_the_mean_matching_score_over_tp", f"implies({T_('tp')} != 0, self.motp == {T_('score')} / {T_('tp')})")),
+             extra_contracts={idx.lookup(f"{CL}:CLEAR._calculate_tp_fp").fq: named_frame})
+
     # tp + fp == number of considered results (exactly one of the two), as a lemma over the three counts
     def partition(z3):
         I, B = z3.IntSort(), z3.BoolSort()
@@ -148,5 +191,6 @@ def build(P):
     P.lemma("tp_plus_fp_equals_considered.step", partition)
     P.trust("TPMetricsAp.get_value is 1.0 (inlined from its body); matching scores and correctness are named functions of (result, mode, threshold): C03 / C06")
     P.assume("the TP weight is TPMetricsAp (CLEAR's default); `correct` at a threshold is C03's is_result_correct")
-    P.uncover("CLEAR.__init__ (sums over frames 1..n-1), tp_matching_score accumulation, TrackingMetricsScore._sum_clear, and the scenario lemmas "
-              "(perfect tracker, new id on a continuing target, exchanged identities): native harness only in this build")
+    P.uncover("the per-frame tp_matching_score (which result's score enters: the previous one for a carried-over match, the current one otherwise) is a named "
+              "function of the frame pair in CLEAR.__init__'s contract and is not specified by _calculate_tp_fp's; TrackingMetricsScore._sum_clear and the scenario "
+              "lemmas (perfect tracker, new id on a continuing target, exchanged identities): native harness only in this build")
